@@ -349,8 +349,11 @@ def main(tier):
                 for mode in MODES:
                     for fan in (FANS if tier == "thorough" else ["LOW", "AUTO"]):
                         for swing in ("ON", "OFF"):
-                            cases.append({"kind": "build", "toggle": toggle, "state": state, "prev": prev, "mode": mode, "fan": fan,
-                                          "swing": swing, "supported": MODES, "trange": trange})
+                            for sep in (False, True):
+                                if sep and tier == "quick" and (fan != "LOW" or prev == "OFF"):
+                                    continue
+                                cases.append({"kind": "build", "toggle": toggle, "state": state, "prev": prev, "mode": mode, "fan": fan,
+                                              "swing": swing, "supported": MODES, "trange": trange, "separated": sep})
     for mode in MODES:
         for sup in (["COOL"], ["AUTO", "DRY", "FAN"], ["HEAT", "COOL", "AUTO"], []):
             if mode in sup:
